@@ -84,7 +84,7 @@ REGISTRY = {
                 "delete-mismatch, misordered hunks, git rename onto an existing file) x backup always/onfail/never/default x threads 1/2/4/16 x -q/default/-v x prior applied state x goal -a/N. "
                 "Non-trivial: the failing patch is not the first of the run, or it has several file entries; distinct by (workspace shape, configuration).",
         "floor": floors(("failing-patch-not-first", 100), ("multi-file-failing-patch", 100), ("runs-applying-everything", 100),
-                        ("failing-file-patch-followed-by-another-for-the-same-file:verbosity=default", 10)),
+                        ("failing-file-patch-followed-by-another-for-the-same-file:verbosity=default", 10), ("prior-applied-patches-file-without-final-newline", 50)),
     },
     "C06": {
         "level_text": "differential: the same workspace pushed single-threaded and with N threads, naturally and under forced schedules (hook gates) that enumerate the run-ahead depth of the workers relative to the failing patch and perturb the save phase; tree, .pc, rejects, exit status compared; the realised interleaving is read back from the hook trace",
@@ -233,14 +233,14 @@ REGISTRY = {
         "floor": floors(("held-runs", 500), ("syscalls-audited", 10000)),
     },
     "C20": {
-        "level_text": 'metamorphic: same case executed under 8 fuzz limits, reports and content compared',
+        "level_text": 'metamorphic: same case executed under 11 fuzz limits (8 usable ones and 3 that no hunk can use), reports and content compared',
         "level_note": 'trusted: none beyond the harness',
         "technique": 'runtime monitoring: metamorphic oracle across fuzz limits',
         "parts": [L.lib_c20, K.cli_c20],
-        "rule": "library layer: each random drifted / multi-hunk / stacked case is applied with limits 0,1,2,3,4,5,10,1000; from the least limit "
+        "rule": "library layer: each random drifted / multi-hunk / stacked case is applied with limits 0,1,2,3,4,5,10,1000, 2^32, 2^63-1, 2^64-1; from the least limit "
                 "F0 at which every hunk applies, all larger limits must give identical hunk reports and content. Non-trivial: F0 >= 1, or F0 = 0 "
-                "with context that a higher level could trim.",
-        "floor": floors(("F0>=1", 1000), ("F0=0-with-context", 1000)),
+                "with context that a higher level could trim.  CLI layer: -F 0..3 to find F0, then {1..4, 10, 1000, one of 2^32 / 10^18 / 2^63-1 / 2^63 / 2^64-1}.",
+        "floor": floors(("F0>=1", 1000), ("F0=0-with-context", 1000), ("huge-limit-compared", 100)),
     },
 }
 
